@@ -153,9 +153,22 @@ fn base_setups(ctx: &mut Ctx) -> Vec<(String, SPDC)> {
   if let Some(Ok(s)) = guard(|| SPDC::from_json(apod)) {
     v.push(("ln-apodized".into(), s));
   }
+  for (name, theta, period) in [("bbo-pp-neg", 44.0, 51.4), ("bbo-pp-pos", 12.0, 64.9)] {
+    let js = format!(
+      r#"{{"crystal":{{"kind":"BBO_1","pm_type":"e->eo","phi_deg":0,"theta_deg":{},"length_um":2000,"temperature_c":20}},
+      "pump":{{"wavelength_nm":775,"waist_um":100,"bandwidth_nm":5.35,"average_power_mw":1}},
+      "signal":{{"wavelength_nm":1550,"phi_deg":0,"theta_deg":0,"waist_um":100,"waist_position_um":-600}},
+      "idler":{{"wavelength_nm":1550,"phi_deg":180,"theta_deg":0,"waist_um":100,"waist_position_um":-600}},
+      "periodic_poling":{{"poling_period_um":{}}},"deff_pm_per_volt":1}}"#,
+      theta, period
+    );
+    if let Some(Ok(s)) = guard(|| SPDC::from_json(&js)) {
+      v.push((name.into(), s));
+    }
+  }
   let nextra = if ctx.thorough { 8 } else { 2 };
   let mut tries = 0;
-  while v.len() < 4 + nextra && tries < 200 {
+  while v.len() < 6 + nextra && tries < 200 {
     tries += 1;
     let d = gen_valid(&mut ctx.rng);
     if let Some(Ok(s)) = guard(|| SPDC::from_json(d.json().to_string())) {
@@ -365,7 +378,15 @@ fn k_point(ctx: &mut Ctx, base: &SPDC, p1: &str, v1: f64, p2: &str, v2: f64) {
     None => "PANIC".to_string(),
     Some(Err(_)) => "ERR".to_string(),
     Some(Ok(s)) => match guard(|| s.clone().as_config()) {
-      Some(c) => config_tokens(&c),
+      // the configuration shows the period's magnitude only: the stored sign is appended
+      Some(c) => format!(
+        "{} {}",
+        config_tokens(&c),
+        match &s.pp {
+          PeriodicPoling::Off => "sign:off",
+          PeriodicPoling::On { sign, .. } => if *sign == Sign::NEGATIVE { "sign:neg" } else { "sign:pos" },
+        }
+      ),
       None => "PANIC".to_string(),
     },
   };
@@ -374,6 +395,144 @@ fn k_point(ctx: &mut Ctx, base: &SPDC, p1: &str, v1: f64, p2: &str, v2: f64) {
     &format!("{} | {} {} {} {} ext {}", setup_tokens(base), p1, fl(v1), p2, fl(v2), ext.join(" ")),
     &out,
   );
+}
+
+fn derived_sign(s: &SPDC) -> Option<Sign> {
+  guard(|| PeriodicPoling::compute_sign(&s.signal, &s.pump, &s.crystal_setup))
+}
+
+/// values of path `p1` (in its unit) at which the sign derived for the swept setup differs from /
+/// equals the sign stored in the base's poling: (flipping, keeping)
+fn sign_scan(base: &SPDC, p1: &str) -> (Vec<f64>, Vec<f64>) {
+  let stored = match &base.pp {
+    PeriodicPoling::On { sign, .. } => *sign,
+    PeriodicPoling::Off => return (vec![], vec![]),
+  };
+  let lp = base.pump.vacuum_wavelength().value_unsafe * 1e9;
+  let ls = base.signal.vacuum_wavelength().value_unsafe * 1e9;
+  let cands: Vec<f64> = match p1 {
+    "crystal.theta_deg" => (0..=30).map(|k| 3.0 * k as f64 + 0.5).collect(),
+    "crystal.phi_deg" => (0..=12).map(|k| 15.0 * k as f64 + 0.25).collect(),
+    "crystal.temperature_c" => (0..=10).map(|k| -40.0 + 28.0 * k as f64).collect(),
+    "signal.wavelength_nm" => (0..=8).map(|k| ls * (1.0 + 0.04 * k as f64)).collect(),
+    "pump.wavelength_nm" => (0..=8).map(|k| lp * (1.0 - 0.03 * k as f64)).collect(),
+    "signal.theta_deg" => (0..=8).map(|k| 0.75 * k as f64).collect(),
+    _ => vec![],
+  };
+  let (mut flip, mut keep) = (vec![], vec![]);
+  for v in cands {
+    if let Some(Ok(mid)) = sweep_one(base, p1, v, p1, v) {
+      match derived_sign(&mid) {
+        Some(sg) if sg != stored => flip.push(v),
+        Some(_) => keep.push(v),
+        None => {}
+      }
+    }
+  }
+  (flip, keep)
+}
+
+fn set_path(v: &mut Value, path: &str, x: f64) -> bool {
+  let mut cur = v;
+  let parts: Vec<&str> = path.split('.').collect();
+  for (i, k) in parts.iter().enumerate() {
+    if i + 1 == parts.len() {
+      if let Value::Object(m) = cur {
+        m.insert(k.to_string(), serde_json::json!(x));
+        return true;
+      }
+      return false;
+    }
+    match cur.get_mut(*k) {
+      Some(n) => cur = n,
+      None => return false,
+    }
+  }
+  false
+}
+
+fn signed_period(s: &SPDC) -> Option<f64> {
+  match &s.pp {
+    PeriodicPoling::On { period, sign, .. } => Some(if *sign == Sign::NEGATIVE { -period.value_unsafe } else { period.value_unsafe }),
+    PeriodicPoling::Off => None,
+  }
+}
+
+/// the statement's last clause against configurations: every element of a sweep
+/// (p1, periodic_poling.poling_period_um) equals the setup constructed from the base's
+/// configuration with the two swept values written in (period as a magnitude, sign derived)
+fn config_constructed_case(ctx: &mut Ctx, name: &str, base0: &SPDC, p1: &str, a: f64, b: f64, nx: usize, per: (f64, f64, usize)) {
+  let integ = Integrator::Simpson { divs: 20 };
+  // canonical base: the setup its own configuration describes
+  let cfg0 = match cfg_value(base0) {
+    Some(c) => c,
+    None => return,
+  };
+  let base = match guard(|| SPDC::from_json(cfg0.to_string())) {
+    Some(Ok(s)) => s,
+    _ => return,
+  };
+  let cfgb = match cfg_value(&base) {
+    Some(c) => c,
+    None => return,
+  };
+  let p2 = "periodic_poling.poling_period_um";
+  let steps = Steps2D((a, b, nx), per);
+  let det = format!("base={} p1={} p2={} x=({:?},{:?},{}) y=({:?},{:?},{})", name, p1, p2, a, b, nx, per.0, per.1, per.2);
+  ctx.count(&format!("config-constructed/p1={}", p1));
+  let swept = guard(|| SPDCIter::try_new(base.clone(), p1, p2, steps).map(|it| it.into_iter().collect::<Vec<SPDC>>()));
+  let values = guard(|| SPDCIter::try_new(base.clone(), p1, p2, steps).map(|it| it.jsi_values(integ)));
+  let (swept, values) = match (swept, values) {
+    (Some(Ok(a)), Some(Ok(b))) => (a, b),
+    _ => {
+      ctx.s("C18.values", false, "sweep/vs-config/sweep-failed", &det);
+      return;
+    }
+  };
+  let pts: Vec<(f64, f64)> = steps.into_iter().collect();
+  if swept.len() != pts.len() || values.len() != pts.len() {
+    ctx.s("C18.order", false, "sweep/vs-config/count", &format!("count={} {}", swept.len(), det));
+    return;
+  }
+  let mut crossed = false;
+  for (k, (v1, v2)) in pts.iter().enumerate() {
+    let mut c = cfgb.clone();
+    if !set_path(&mut c, &field_of(p1), *v1) || !set_path(&mut c, p2, *v2) {
+      return;
+    }
+    let ind = match guard(|| SPDC::from_json(c.to_string())) {
+      Some(Ok(s)) => s,
+      _ => continue, // the configuration route rejects this point (e.g. λs ≤ λp): nothing to compare with
+    };
+    let kdet = format!("k={} v1={:?} v2={:?} {}", k, v1, v2, det);
+    let (sp, ip) = (signed_period(&swept[k]), signed_period(&ind));
+    if let (Some(x), Some(y)) = (sp, signed_period(&base)) {
+      if x.signum() != y.signum() {
+        crossed = true;
+      }
+    }
+    let same_sign = match (sp, ip) {
+      (Some(x), Some(y)) => x.signum() == y.signum() && (x - y).abs() <= 1e-12 * y.abs(),
+      _ => false,
+    };
+    ctx.s("C18.frame", same_sign, "sweep/vs-config/signed-period", &format!("swept_period_m={:?} constructed_period_m={:?} {}", sp, ip, kdet));
+    match (guard(|| swept[k].clone().as_config()), guard(|| ind.clone().as_config())) {
+      (Some(cs), Some(ci)) => match config_close(&cs, &ci, 1e-9) {
+        Ok(()) => ctx.s("C18.frame", true, "sweep/vs-config/config", &kdet),
+        Err(why) => ctx.s("C18.frame", false, "sweep/vs-config/config", &format!("{} {}", why, kdet)),
+      },
+      _ => ctx.s("C18.frame", false, "sweep/vs-config/as_config-panic", &kdet),
+    }
+    match guard(|| jsi_center(&ind, integ)) {
+      Some(want) => {
+        let got = values[k];
+        let ok = got == want || (got - want).abs() <= 1e-9 * got.abs().max(want.abs());
+        ctx.s("C18.values", ok, "sweep/vs-config/jsi-values", &format!("swept={:e} constructed={:e} {}", got, want, kdet));
+      }
+      None => ctx.s("C18.values", false, "sweep/vs-config/jsi-panic", &kdet),
+    }
+  }
+  ctx.count(if crossed { "config-constructed/sign-crossed" } else { "config-constructed/one-sided" });
 }
 
 fn mutate_name(r: &mut Rng, s: &str) -> String {
@@ -619,6 +778,38 @@ pub fn run(ctx: &mut Ctx) {
       }
     }
     ctx.s("C18.order", ok, "sweep/row-major-first-fastest", &format!("{} {}", why, det));
+  }
+
+  // ---- poling already on: the first parameter drives Δk across its sign change, the second
+  // assigns the period; sign and values against the state the setter sees and against
+  // configuration-constructed setups
+  let drivers = ["crystal.theta_deg", "crystal.phi_deg", "crystal.temperature_c", "signal.wavelength_nm", "pump.wavelength_nm", "signal.theta_deg"];
+  for (name, base) in bases.iter() {
+    let per0 = match signed_period(base) {
+      Some(p) => p.abs() / 1e-6,
+      None => continue,
+    };
+    for p1 in drivers.iter() {
+      let (flip, keep) = sign_scan(base, p1);
+      ctx.count(&format!("sign-scan/{}/{}", p1, if flip.is_empty() { "no-flip" } else { "flips" }));
+      let mut picks: Vec<f64> = vec![];
+      picks.extend(flip.iter().take(if ctx.thorough { 4 } else { 2 }));
+      picks.extend(keep.iter().take(1));
+      for v1 in picks.iter() {
+        let v2 = ((per0 * (0.8 + 0.4 * ctx.rng.unit())) * 1e3).round() / 1e3;
+        frame_case(ctx, name, base, p1, *v1, "periodic_poling.poling_period_um", v2);
+        k_point(ctx, base, p1, *v1, "periodic_poling.poling_period_um", v2);
+      }
+      // a sweep whose first axis spans both sides of the sign change
+      if let (Some(f), Some(k)) = (flip.first(), keep.first()) {
+        let nx = if ctx.thorough { 4 } else { 3 };
+        config_constructed_case(ctx, name, base, p1, *f, *k, nx, (per0, per0 * 1.25, 2));
+      } else if let (Some(k0), Some(k1)) = (keep.first(), keep.last()) {
+        if ctx.thorough {
+          config_constructed_case(ctx, name, base, p1, *k0, *k1, 2, (per0, per0 * 1.25, 2));
+        }
+      }
+    }
   }
 
   // ---- swept spectrum values = values of individually constructed setups
